@@ -829,6 +829,47 @@ ITER_DROPPERS = ("filter", "filter_map", "skip", "skip_while", "take", "take_whi
 LIST_BUILDERS = ("push", "extend", "collect", "flat_map", "flatten", "chain", "append", "extend_from_slice")
 
 
+def _retain_drops_only_same_file(prog, b, c):
+    """`paths.retain(closure)` where the closure returns `true`, or what HashSet::insert(key) returned with key = the element's
+    canonical path (std::fs / Path::canonicalize): the only entries dropped name a file that is already in the list.  (A key built
+    in any other way — lower-cased, normalised textually — can identify two different files.)"""
+    if len(c.args) < 2 or c.args[1]["k"] not in ("copy", "move"):
+        return False
+    clos = b.locals[c.args[1]["place"]["l"]].get("closure")
+    cb = prog.body(norm(clos)) if clos else None
+    if cb is None or cb.loops():
+        return False
+    ret = Origins(cb).of_place({"l": 0, "p": []})
+    ins = [x for x in ret if x[0] == "call" and x[2].endswith("HashSet::insert")]
+    rest = [x for x in ret if x not in ins]
+    if not ins or not all(x[0] == "const" and x[1] == "bool" and x[2] is True for x in rest):
+        return False
+    fam = [cb] + [y for y in prog.bodies.values() if y.npath.startswith(cb.npath + "::")]
+
+    def key_is_canonical(body, op, depth=0):
+        o = Origins(body, extra_identity={"core::result::Result::as_ref", "core::option::Option::as_ref"}).of_operand(op)
+        if not o:
+            return False
+        for x in o:
+            if x[0] == "call" and x[2] in ("std::path::Path::canonicalize", "std::fs::canonicalize"):
+                continue
+            if x[0] == "call" and x[2] in ("core::result::Result::map", "core::result::Result::and_then", "core::option::Option::map", "core::option::Option::and_then") and depth < 2:
+                t = body.blocks[x[1]]["term"]
+                a = t["args"][1]
+                cl2 = body.locals[a["place"]["l"]].get("closure") if a["k"] in ("copy", "move") else None
+                c2 = prog.body(norm(cl2)) if cl2 else None
+                if c2 is not None and all(y[0] == "call" and y[2] in ("std::path::Path::canonicalize", "std::fs::canonicalize") for y in Origins(c2).of_place({"l": 0, "p": []})):
+                    continue
+                return False
+            return False
+        return True
+    for x in ins:
+        t = cb.blocks[x[1]]["term"]
+        if not key_is_canonical(cb, t["args"][1]):
+            return False
+    return True
+
+
 def c18f(prog, rep):
     """C18.f — every file named on the command line is in the batch: a file that is formatted when given alone must not disappear when
     given together with others.  (1) No vector of paths in the orchestrator is ever shortened (retain / dedup / remove / truncate /
@@ -838,6 +879,7 @@ def c18f(prog, rep):
     R = "C18.f"
     n = 0
     bad = []
+    dedup = []
     for b in prog.bodies.values():
         if b.crate != "pasfmt_orchestrator" and not b.npath.startswith("pasfmt_orchestrator"):
             continue
@@ -847,9 +889,17 @@ def c18f(prog, rep):
             if cal.startswith("alloc::vec::Vec") and "PathBuf" in cargs:
                 n += 1
                 if cal.split("::")[-1] in VEC_REMOVERS:
+                    if cal.split("::")[-1] == "retain" and _retain_drops_only_same_file(prog, b, c):
+                        dedup.append("%s:%s" % (short(b.npath), c.line))
+                        continue
                     bad.append("%s:%s %s on a vector of paths" % (short(b.npath), c.line, cal.split("::")[-1]))
     rep.check(not bad, R, "path-lists-only-grow", "a list of files to format is shortened: a file that is formatted when given alone can be left out of a batch (e.g. two paths that a "
-              "normalisation considers equal): %s" % bad[:3], instance={"vec_of_paths_operations": n, "violating": bad[:5]})
+              "normalisation considers equal): %s" % bad[:3], instance={"vec_of_paths_operations": n, "violating": bad[:5], "same_file_dedup": dedup})
+    # .. and no file is handed to two workers: files are rewritten in place (seek / write / set_len on a handle opened read+write),
+    # so two workers on one file can read a half-written version and write it back.  The expansion therefore ends with a
+    # de-duplication by file identity (canonical path).
+    rep.check(bool(dedup), R, "same-file-handed-to-one-worker", "expand_paths does not de-duplicate the files it hands to the parallel pipeline by canonical path: `pasfmt src src/unit1.pas` gives the same "
+              "file to two workers that rewrite it in place concurrently (observed: a 30 MB file loses bytes in 2 of 10 runs, exit status 0)", instance={"dedup_sites": dedup})
     import layout as _layout
     # the expansion code: expand_paths, its closures, and private helpers called only from there (extracted arms)
     fam_roots = {FF + "expand_paths"}
